@@ -47,6 +47,32 @@ func ownT(tv []hcl.Traversal) []hcl.Traversal {
 	return cp
 }
 
+// useT is what an application does with the references variable analysis
+// hands back: it derives its own references from them with hcl's traversal
+// helpers (a per-task step joined on, split and re-joined), never writing
+// through the returned traversals itself.  The derived traversals are part of
+// the op's outcome.
+func useT(t int, tv []hcl.Traversal) []hcl.Traversal {
+	var out []hcl.Traversal
+	own := hcl.Traversal{hcl.TraverseAttr{Name: "task" + itoa(t)}, hcl.TraverseIndex{Key: cty.NumberIntVal(int64(1000 * t))}}
+	for i, tr := range tv {
+		if len(tr) == 0 || tr.IsRelative() {
+			continue
+		}
+		j := hcl.TraversalJoin(tr, own)
+		out = append(out, j)
+		sp := tr.SimpleSplit()
+		out = append(out, sp.Join())
+		if len(sp.Abs) > 0 && !sp.Abs.IsRelative() {
+			out = append(out, hcl.TraversalJoin(sp.Abs, own))
+		}
+		if i >= 6 {
+			break
+		}
+	}
+	return out
+}
+
 func ownA(a hcl.Attributes) hcl.Attributes {
 	if a == nil {
 		return nil
@@ -314,7 +340,10 @@ func (w *World) execOp(t int, op OpM) (out func() string) {
 		e, name := w.expr(op.Expr)
 		tv := e.Variables()
 		tv = ownT(tv)
-		return func() string { return "variables " + name + " = " + dumpTraversals(tv) }
+		dv := useT(t, tv)
+		return func() string {
+			return "variables " + name + " = " + dumpTraversals(tv) + " derived " + dumpTraversals(dv)
+		}
 	case "content":
 		be := w.body(op.Target)
 		sel, _ := w.schemaFor(be.kind, op.Mask|op.Mask>>7)
@@ -374,13 +403,17 @@ func (w *World) execOp(t int, op OpM) (out func() string) {
 	case "dec_vars":
 		tv := hcldec.Variables(root(), w.spec)
 		tv = ownT(tv)
-		return func() string { return "dec_vars " + dumpTraversals(tv) }
+		dv := useT(t, tv)
+		return func() string { return "dec_vars " + dumpTraversals(tv) + " derived " + dumpTraversals(dv) }
 	case "expand_vars":
 		tv1 := dynblock.VariablesHCLDec(root(), w.spec)
 		tv2 := dynblock.ExpandVariablesHCLDec(root(), w.spec)
 		tv1 = ownT(tv1)
 		tv2 = ownT(tv2)
-		return func() string { return "expand_vars " + dumpTraversals(tv1) + " | " + dumpTraversals(tv2) }
+		dv := useT(t, tv2)
+		return func() string {
+			return "expand_vars " + dumpTraversals(tv1) + " | " + dumpTraversals(tv2) + " derived " + dumpTraversals(dv)
+		}
 	case "gohcl":
 		var g gRoot
 		sch := func() string { return "" }
